@@ -454,7 +454,12 @@ class List(list, base.Symbolic, pg_typing.CustomTyping):
 
   def _ensure_removable(self, count: int = 1) -> None:
     """Raises if removing `count` elements would go below the min size."""
-    if self._value_spec and len(self) - count < self._value_spec.min_size:
+    if not self._value_spec:
+      return
+    # MISSING_VALUE items are placeholders of removed elements (they are
+    # dropped at the next change notification) and do not count.
+    size = sum(1 for v in self.sym_values() if pg_typing.MISSING_VALUE != v)
+    if size - count < self._value_spec.min_size:
       raise ValueError(
           f'Cannot remove item: min size ({self._value_spec.min_size}) '
           f'is reached.')
